@@ -334,7 +334,8 @@ func CFG(tier string, f func(Case)) {
 	// 4. choice / case / implicit case
 	for c := 0; c < 243; c++ {
 		x := []string{tri[c%3], tri[c/3%3], tri[c/9%3], tri[c/27%3], tri[c/81%3]}
-		a := &ir.Mod{Name: "a", Body: []*ir.S{ir.Cont("c", ir.N("choice", "ch", ir.N("case", "ca", ir.Leaf("x", "string").WithCfg(x[3])).WithCfg(x[2]), ir.Leaf("sh", "string").WithCfg(x[4])).WithCfg(x[1])).WithCfg(x[0])}}
+		// (a case takes no config statement; the container inside it does)
+		a := &ir.Mod{Name: "a", Body: []*ir.S{ir.Cont("c", ir.N("choice", "ch", ir.N("case", "ca", ir.Cont("cc", ir.Leaf("x", "string").WithCfg(x[3])).WithCfg(x[2])), ir.Leaf("sh", "string").WithCfg(x[4])).WithCfg(x[1])).WithCfg(x[0])}}
 		mk(fmt.Sprintf("choice %v", x), a)
 	}
 	// 5. rpc / action / notification (no explicit config inside), under configured ancestors
